@@ -417,10 +417,12 @@ impl Compiler {
             }
             ObjectPropertyKey::Computed(_) => {
                 if let Some(key_reg) = computed_key_reg {
-                    self.builder.emit(Op::SetProperty {
+                    // (defined, not assigned: a computed `__proto__` is an ordinary property)
+                    self.builder.emit(Op::DefineProperty {
                         obj,
                         key: key_reg,
                         value: value_reg,
+                        flags: 7,
                     });
                     self.builder.free_register(key_reg);
                 }
